@@ -24,11 +24,11 @@ CircPumpTables == {"circ_pump_mass", "circ_pump_pressure"}
 NodeElTables == {"ext_grid", "sink", "source", "mass_storage"}
 LoadTables == {"sink", "source", "mass_storage"}
 
-Range(s) == {s[i] : i \in DOMAIN s}
+Rng(s) == {s[i] : i \in DOMAIN s}
 
-JRows(net) == Range(net.J)
-ERows(net) == Range(net.E)
-NRows(net) == Range(net.N)
+JRows(net) == Rng(net.J)
+ERows(net) == Rng(net.E)
+NRows(net) == Rng(net.N)
 JLabs(net) == {r.lab : r \in JRows(net)}
 Rows(net, t) == {r \in ERows(net) : r.tbl = t}
 NERows(net, t) == {r \in NRows(net) : r.tbl = t}
